@@ -1229,6 +1229,8 @@ class Analysis:
                 "then_some": [(yes, ("val", _some(a[1]) if len(a) > 1 else None)), (no, ("val", NONE))],
                 "then": [(yes, ("clo", a[1] if len(a) > 1 else None, [], _some)), (no, ("val", NONE))],
             }.get(n)
+        if alts is None and re.match(r"^std::collections::hash_map::Entry::<.*>::(and_modify|or_insert_with|or_insert|or_default)$", d) and a:
+            return self._fork_entry(frame, t, ev, path, bb, d.split("::")[-1])
         if not alts:
             return None
         line = t.get("line")
@@ -1268,6 +1270,74 @@ class Analysis:
                         lv = fx.lv_of(t["dest"]) if t["dest"]["proj"] else fx.loc(t["dest"]["l"])
                         fx.write_lv(lv, prod[3](fx.read_lv(lv)), px)
                     live.append((fx, px))
+        return ("forks", live, dead)
+
+    def _fork_entry(self, frame, t, ev, path, bb, m):
+        """HashMap entry combinators as the Occupied / Vacant match they abbreviate; the writes are presented as the
+        OccupiedEntry::insert / VacantEntry::insert calls of the explicit form."""
+        a = ev.args
+        E = a[0]
+        if not (isinstance(E, tuple) and E[0] == "call"):
+            return None
+        line = t.get("line")
+        D = ("discr", E)
+        occ, vac = (D, ("==", 0)), (D, ("==", 1))
+        kv = re.sub(r"^std::collections::hash_map::Entry::<'?\w*,? ?", "", ev.callee["def"].rsplit(">::", 1)[0])
+        slot = ("entryval", E)
+        live, dead = [], []
+
+        def single(fv, args):
+            outs, body = self._closure_outs(frame, fv, args)
+            if outs is None:
+                return None
+            rets = [o for o in outs if o.end == "return"]
+            if len(rets) != 1 or len(outs) != 1 or rets[0].guards:
+                return None
+            return rets[0]
+        for g in (occ, vac):
+            if self._contradicts(path, g):
+                continue
+            f2, p2 = frame.clone(), path.clone()
+            p2.guards.append(g + (line,))
+            is_occ = g is occ
+            if m == "and_modify":
+                if is_occ:
+                    fv = self._value_of(frame, a[1])
+                    if not (isinstance(fv, tuple) and fv[0] == "closure"):
+                        return None
+                    o = single(fv, [("ref", True, slot)])
+                    if o is None:
+                        return None
+                    written = [v for lv, v in o.stores if lv == slot] + [v for lv, v in getattr(o, "foreign_writes", {}).items() if lv == slot]
+                    if len(written) != 1 or [c for c in o.calls if not c.inlined]:
+                        return None
+                    p2.calls.extend(o.calls)
+                    pay = self.eng.project(("downcast", E, 0, "Occupied"), 0, "0", None)
+                    k = "std::collections::hash_map::OccupiedEntry::<%s>::insert" % kv
+                    p2.calls.append(self._synth_event(p2, k, {"def": k, "text": k, "args": []}, [("ref", True, ("val", pay)), written[0]], bb, line))
+                self._assign_dest(f2, t, E, p2)
+            else:
+                if is_occ:
+                    self._assign_dest(f2, t, ("ref", True, slot), p2)
+                else:
+                    if m == "or_insert":
+                        v = a[1]
+                    elif m == "or_default":
+                        return None
+                    else:
+                        fv = self._value_of(frame, a[1])
+                        if not (isinstance(fv, tuple) and fv[0] == "closure"):
+                            return None
+                        o = single(fv, [])
+                        if o is None or o.stores:
+                            return None
+                        p2.calls.extend(o.calls)
+                        v = o.ret
+                    pay = self.eng.project(("downcast", E, 1, "Vacant"), 0, "0", None)
+                    k = "std::collections::hash_map::VacantEntry::<%s>::insert" % kv
+                    p2.calls.append(self._synth_event(p2, k, {"def": k, "text": k, "args": []}, [pay, v], bb, line))
+                    self._assign_dest(f2, t, ("ref", True, slot), p2)
+            live.append((f2, p2))
         return ("forks", live, dead)
 
     def _opaque(self, frame, t, ev, path, key, args):
